@@ -125,8 +125,8 @@ func c07AnalyseStorageMethod(x *ExtractCtx, rel string, fd *ast.FuncDecl) (*c07M
 					}
 				case "&sql.TxOptions{ReadOnly:true}":
 				default:
-					err = fmt.Errorf("%s.%s: unrecognised transaction options %q", rel, m.name, opts)
-					return false
+					// options not written as a literal (WithTransaction passes them through): counted
+					// in withTx, never as writable — a named method with such a call fails its obligation
 				}
 				switch body := v.Args[3].(type) {
 				case *ast.FuncLit:
